@@ -320,6 +320,7 @@ def inline_new_helpers(tree, ref_funcs, note):
             for m in n.body:
                 if isinstance(m, FuncDef) and (n.name + '.' + m.name) not in ref_funcs:
                     helpers[('meth', m.name)] = m
+    Ctx.helpers = dict(helpers)
     count = 0
     # new functions that are only passed around as values (callbacks): written back as lambda expressions where that is possible
     for key_, h in list(helpers.items()):
@@ -1131,6 +1132,22 @@ def rw_return_temp(func, k):
         for s in blk:
             if isinstance(s, ast.Return) and s.value is not None and not isinstance(s.value, (ast.Name, ast.Constant)):
                 sites.append((blk, s))
+    if Ctx.line_hash is not None and Ctx.ref_hashes:
+        # only where the reference has an assignment of exactly this expression
+        names = Ctx.local_names(func)
+        keep = []
+        for blk_, s_ in sites:
+            probe = ast.Assign(targets=[ast.Name(id='_ret_tmp', ctx=ast.Store())], value=s_.value, lineno=s_.lineno, col_offset=0, end_lineno=s_.lineno, end_col_offset=0)
+            probe.targets[0].lineno = s_.lineno
+            probe.targets[0].col_offset = 0
+            probe.targets[0].end_lineno = s_.lineno
+            probe.targets[0].end_col_offset = 0
+            try:
+                if Ctx.line_hash(probe, names | {'_ret_tmp'}, func) in Ctx.ref_hashes:
+                    keep.append((blk_, s_))
+            except Exception:
+                pass
+        sites = keep
     if k >= len(sites):
         return False
     blk, s = sites[k]
@@ -1261,6 +1278,7 @@ def rw_sink_common_tail(func, k):
 
 
 class Ctx:
+    helpers = {}
     nested_sigs = {}
     ref_counter = Counter()
     ref_hashes = frozenset()
@@ -1345,6 +1363,15 @@ def rw_extract_temp(func, k):
     if k >= len(sites):
         return False
     blk, st, e = sites[k]
+    # a sub-expression that is evaluated only conditionally (branch of a conditional expression, later operand of and / or) must
+    # not be evaluated unconditionally in front of the statement
+    q_, child_ = par.get(e), e
+    while q_ is not None and q_ is not st:
+        if isinstance(q_, ast.IfExp) and child_ is not q_.test:
+            return True
+        if isinstance(q_, ast.BoolOp) and q_.values and child_ is not q_.values[0]:
+            return True
+        child_, q_ = q_, par.get(q_)
     p = par.get(e)
     while p is not None and p is not st:
         if isinstance(p, (ast.Lambda, ast.ListComp, ast.SetComp, ast.DictComp, ast.GeneratorExp)):
@@ -2045,7 +2072,48 @@ def rw_last_appended(func, k):
     return True
 
 
-GUIDED = [rw_extract_temp, rw_flatten_comp_filter, rw_first_of_concat, rw_split_tuple_assign, rw_augcomp_to_loop, rw_len_zero, rw_bool_ifexp, rw_singleton_comp, rw_ndenumerate_value, rw_flat_to_ndenumerate, rw_slice_zero, rw_flip_compare, rw_keyword_to_positional, rw_fstring_to_percent, rw_np_all_any, rw_range_min_guard, rw_membership_container, rw_drop_default_arg, rw_unpack_first, rw_use_alias, rw_ravel_flatten, rw_last_appended, rw_pass_branch, rw_dictcomp_to_loop, rw_none_flag, rw_argcomp_to_loop, rw_hoist_return, rw_get_none, rw_else_after_exit_wrap, rw_else_after_exit_unwrap, rw_comp_to_loop, rw_loop_to_comp, rw_not_compare, rw_demorgan, rw_swap_branches, rw_merge_nested_if, rw_split_and_if, rw_guard_to_swapped_else, rw_swapped_else_to_guard, rw_drop_tail_return, rw_add_tail_return, rw_element_to_index_loop, rw_fuse_loops, rw_late_publication, rw_drop_tail_continue, rw_items_loop, rw_filter_loop, rw_loop_to_update, rw_is_false, rw_hoist_common_tail, rw_sink_common_tail, rw_ifexp_to_if, rw_if_to_ifexp, rw_bool_to_if, rw_kwargs_default, rw_trailing_return, rw_enumerate, rw_return_temp]
+def rw_inline_helper(func, k):
+    """a statement that calls a helper the reference does not contain (after other rewrites made it a plain statement)"""
+    helpers = Ctx.helpers
+    if not helpers:
+        return False
+    sites = []
+    for owner, fld, blk in blocks_of(func):
+        for st in blk:
+            if isinstance(st, FuncDef + (ast.ClassDef,)) or any(isinstance(getattr(st, f, None), list) and f in _BODY_FIELDS for f in st._fields):
+                continue
+            calls = []
+            for c in ast.walk(st):
+                if isinstance(c, ast.Call):
+                    h = kind = None
+                    if isinstance(c.func, ast.Name) and ('mod', c.func.id) in helpers:
+                        h, kind = helpers[('mod', c.func.id)], 'mod'
+                    elif isinstance(c.func, ast.Attribute) and isinstance(c.func.value, ast.Name) and c.func.value.id == 'self' and ('meth', c.func.attr) in helpers:
+                        h, kind = helpers[('meth', c.func.attr)], 'meth'
+                    if h is not None:
+                        calls.append((c, h, kind))
+            if len(calls) == 1:
+                par = parents_of(st)
+                p = par.get(calls[0][0])
+                bad = False
+                while p is not None:
+                    if isinstance(p, (ast.Lambda, ast.ListComp, ast.SetComp, ast.DictComp, ast.GeneratorExp)):
+                        bad = True
+                    p = par.get(p)
+                if not bad:
+                    sites.append((blk, st) + calls[0])
+    if k >= len(sites):
+        return False
+    blk, st, c, h, kind = sites[k]
+    new = _inline_site(st, c, h, kind)
+    if new is None:
+        return True
+    i = blk.index(st)
+    blk[i:i + 1] = new
+    return True
+
+
+GUIDED = [rw_inline_helper, rw_extract_temp, rw_flatten_comp_filter, rw_first_of_concat, rw_split_tuple_assign, rw_augcomp_to_loop, rw_len_zero, rw_bool_ifexp, rw_singleton_comp, rw_ndenumerate_value, rw_flat_to_ndenumerate, rw_slice_zero, rw_flip_compare, rw_keyword_to_positional, rw_fstring_to_percent, rw_np_all_any, rw_range_min_guard, rw_membership_container, rw_drop_default_arg, rw_unpack_first, rw_use_alias, rw_ravel_flatten, rw_last_appended, rw_pass_branch, rw_dictcomp_to_loop, rw_none_flag, rw_argcomp_to_loop, rw_hoist_return, rw_get_none, rw_else_after_exit_wrap, rw_else_after_exit_unwrap, rw_comp_to_loop, rw_loop_to_comp, rw_not_compare, rw_demorgan, rw_swap_branches, rw_merge_nested_if, rw_split_and_if, rw_guard_to_swapped_else, rw_swapped_else_to_guard, rw_drop_tail_return, rw_add_tail_return, rw_element_to_index_loop, rw_fuse_loops, rw_late_publication, rw_drop_tail_continue, rw_items_loop, rw_filter_loop, rw_loop_to_update, rw_is_false, rw_hoist_common_tail, rw_sink_common_tail, rw_ifexp_to_if, rw_if_to_ifexp, rw_bool_to_if, rw_kwargs_default, rw_trailing_return, rw_enumerate, rw_return_temp]
 
 
 def _clone(node):
